@@ -210,9 +210,13 @@ struct OSys : vf::SysBase {
     const Op p = ops[i];
     Expect ex; std::string cls = classify(p, ex);
     StepCtx k{s, part(), cls, ""};
+    // operations made directly on the subject graph: findings about the graph layer itself get the graph-layer signature
+    // (same as in the graph-only spaces), findings about the association layer keep obs|graph.<op>
+    bool gop = cls.compare(0, 6, "graph.") == 0;
+    StepCtx kg{s, gop ? gpart() : part(), gop ? cls.substr(6) : cls, ""};
     std::string before = audit ? dumpImpl() : std::string(), beforeRef = audit ? m.proj() : std::string();
     bool first = depth == 0; ++depth;
-    if (audit) k.ctx = "state [" + m.proj() + "] then " + opname(i);
+    if (audit) kg.ctx = k.ctx = "state [" + m.proj() + "] then " + opname(i);
     if (p.k == COPY) { if (audit) copyCheck(k, before); return; }
     Outcome out = RETURNED; std::string what; U ret = 0;
     NR na = (p.a >= 0 && p.a < KN) ? N[p.a] : NR(), nb = (p.b >= 0 && p.b < KN) ? N[p.b] : NR();
@@ -269,17 +273,17 @@ struct OSys : vf::SysBase {
     }
     if (!audit) return;
     std::string after = dumpImpl();
-    judgeOutcome(k, ex, out, what, after != before);
+    judgeOutcome(kg, ex, out, what, after != before);
     if (after != before) s.nontrivial = true;
     s.tag(k.part + " " + cls);
     if (s.diverged) return;
-    if (!retBad.empty()) { sfail(k, "returned-value", retBad, true); return; }
+    if (!retBad.empty()) { sfail(kg, "returned-value", retBad, true); return; }
     const Obs& x = *o;
     std::string inv = ginvariant(*x.subjectGraph_);
-    if (!inv.empty()) { sfail(k, "views-disagree:" + inv.substr(0, inv.find(':')), inv, true); return; }
+    if (!inv.empty()) { sfail(kg, "views-disagree:" + inv.substr(0, inv.find(':')), inv, true); return; }
     inv = oinvariant();
     if (!inv.empty()) { sfail(k, "association:" + inv.substr(0, inv.find(':')), inv + " | " + after, true); return; }
-    if (gproj(*x.subjectGraph_) != m.g.proj()) { sfail(k, "graph-differs-from-reference", "implementation [" + gproj(*x.subjectGraph_) + "] reference [" + m.g.proj() + "]", true); return; }
+    if (gproj(*x.subjectGraph_) != m.g.proj()) { sfail(kg, "state-differs-from-reference", "implementation [" + gproj(*x.subjectGraph_) + "] reference [" + m.g.proj() + "]", true); return; }
     std::string a1 = implMap(x.NToGraphid_, [this](const NR& r) { return nlabel(r); }), a2 = implMap(x.EToGraphid_, [this](const ER& r) { return elabel(r); });
     std::string a3 = implMap(x.NToIndex_, [this](const NR& r) { return nlabel(r); }), a4 = implMap(x.EToIndex_, [this](const ER& r) { return elabel(r); });
     if (a1 != OModel::mp(m.nodeOf)) { sfail(k, "node-association-differs-from-reference", "implementation {" + a1 + "} reference {" + OModel::mp(m.nodeOf) + "}", true); return; }
@@ -418,15 +422,16 @@ struct OSys : vf::SysBase {
         qRaise(q, "getNodes(edge obj)", a + " (object not in the graph)", [&] { cx.getNodes(ej); });
       }
     }
-    // index -> object, including one index beyond everything ever used: null or a bpp::Exception are both accepted for a vacant index
+    // index -> object, including one index beyond everything ever used. For a vacant index a null object, a bpp::Exception and the
+    // std::out_of_range of vector::at (what the code does beyond the table) are all accepted: the interface documents nothing
     for (U xi = 0; xi <= (U)KI + 1; ++xi) {
       std::string a = "(index " + str(xi) + ")"; int wn = m.nodeAtIdx(xi), we = m.edgeAtIdx(xi);
       qVal<bool>(q, "hasNode(index)", a, [&] { return cx.hasNode(xi); }, wn >= 0);
       qVal<bool>(q, "hasEdge(index)", a, [&] { return cx.hasEdge(xi); }, we >= 0);
       if (wn >= 0) qVal<int>(q, "getNode(index)", a, [&] { return nlabel(cx.getNode(xi)); }, wn);
-      else try { NR r = cx.getNode(xi); if (r) q.bad("getNode(index)", "", a + " returned an object for a vacant index"); } catch (bpp::Exception&) {} catch (std::exception& e) { q.bad("getNode(index)", "raised-non-bpp-exception", a + " (vacant index) raised " + typeid(e).name() + " '" + line1(e.what()) + "'"); }
+      else try { NR r = cx.getNode(xi); if (r) q.bad("getNode(index)", "", a + " returned an object for a vacant index"); } catch (bpp::Exception&) {} catch (std::out_of_range&) { q.s.tag("vacant-index:std::out_of_range"); }
       if (we >= 0) qVal<int>(q, "getEdge(index)", a, [&] { return elabel(cx.getEdge(xi)); }, we);
-      else try { ER r = cx.getEdge(xi); if (r) q.bad("getEdge(index)", "", a + " returned an object for a vacant index"); } catch (bpp::Exception&) {} catch (std::exception& e) { q.bad("getEdge(index)", "raised-non-bpp-exception", a + " (vacant index) raised " + typeid(e).name() + " '" + line1(e.what()) + "'"); }
+      else try { ER r = cx.getEdge(xi); if (r) q.bad("getEdge(index)", "", a + " returned an object for a vacant index"); } catch (bpp::Exception&) {} catch (std::out_of_range&) { q.s.tag("vacant-index:std::out_of_range"); }
     }
     // graph ids without an object map to null
     for (U id = 0; id <= g.nextN; ++id) if (m.objOfNode(id) < 0) qVal<int>(q, "getNodeFromGraphid", "(" + str(id) + " without object)", [&] { return nlabel(cx.getNodeFromGraphid(id)); }, -1);
@@ -492,9 +497,10 @@ void obsSpaces(vf::Runner& R, bool th, double CT) {
   struct Cfg { bool dir; int fl, kn, ke, nn, ee, ki, depth; };
   std::vector<Cfg> cfgs;
   for (int d = 1; d >= 0; --d) {
-    cfgs.push_back({d != 0, 0, 3, 2, 4, 4, 0, th ? 6 : 4});
-    cfgs.push_back({d != 0, 1, 2, 2, 3, 3, 0, th ? 7 : 5});
-    cfgs.push_back({d != 0, 2, 2, 2, 3, 3, 2, th ? 7 : 5});
+    cfgs.push_back({d != 0, 0, 3, 2, 4, 4, 0, th ? 5 : 4});
+    if (th) cfgs.push_back({d != 0, 0, 4, 2, 5, 5, 0, 4});
+    cfgs.push_back({d != 0, 1, 2, 2, 3, 3, 0, th ? 6 : 5});
+    cfgs.push_back({d != 0, 2, 2, 2, 3, 3, 2, th ? 6 : 5});
   }
   for (auto& c : cfgs) {
     OSys proto(c.dir, c.fl, c.kn, c.ke, c.nn, c.ee, c.ki);
